@@ -274,6 +274,8 @@ mutual
     | .remove p t => simp only [execOp]; exact removeOp_good p t cs
     | .farcallList items => simp only [execOp]; exact farcallListOp_good cfg items cs
     | .raise => simp only [execOp]; exact ResGood.stop cs _
+    | .attempt body => simp only [execOp]; exact execOps_good cfg hsp body cs
+    | .loadBad p => simp only [execOp]; exact ResGood.stop cs _
   theorem execOps_good (cfg : Cfg) (hsp : speedOK cfg) (ops : List Op) (cs : CS) : ResGood (execOps cfg ops cs) := by
     match ops with
     | [] => simp only [execOps]; exact ResGood.stop cs none
